@@ -359,10 +359,8 @@ class ODF2MoinMoin(object):
         return "[[BR]]"
 
     def text_note(self, node):
-        cite = (node.getElementsByTagName("text:note-citation")[0]
-                    .childNodes[0].nodeValue)
-        body = (node.getElementsByTagName("text:note-body")[0]
-                    .childNodes[0])
+        cite = ''.join(c.nodeValue or '' for c in node.getElementsByTagName("text:note-citation")[0].childNodes)
+        body = node.getElementsByTagName("text:note-body")[0]
         self.footnotes.append((cite, self.textToString(body)))
         return "^%s^" % cite
 
